@@ -122,6 +122,11 @@ def dfs(runs, preempt=None):
     return e
 
 
+def bursts(runs, stride=1, offset=0):
+    """One context switch: a runs j steps, b runs to completion, then the rest -- for every ordered pair (a, b) and every j."""
+    return {"kind": "bursts", "runs": runs, "stride": stride, "offset": offset}
+
+
 def rnd(runs, seed):
     return {"kind": "random", "runs": runs, "seed": seed}
 
